@@ -1,2 +1,4 @@
 def run(ctx):
-    return ""
+    from . import scan_proofs
+
+    return scan_proofs.run(ctx, "C03")
